@@ -23,7 +23,7 @@ INFO = {
                 "hostile strings; long inputs with the interesting characters at power-of-two byte offsets, same-length variants "
                 "in one reused buffer, owned (String) arguments; a few strings of 10^4-10^5 characters. Built with overflow checks and debug "
                 "assertions on (thorough: also plain release, and the miriops program under Miri). Oracle: no panic payload, "
-                "no death on a signal. Non-trivial = distinct inputs containing a multi-byte character or a non-scalar / "
+                "no death on a signal. every scalar value c also as alef c bet, fullwidth-A c and c alef through every rule and enforce; Non-trivial = distinct inputs containing a multi-byte character or a non-scalar / "
                 "out-of-range argument.",
         "floor_quick": 50000,
         "technique": "runtime monitoring: catch_unwind panic monitor over enumerated and hostile inputs; Miri (UB interpreter) in thorough",
@@ -120,7 +120,7 @@ INFO = {
                 "result again gives the same string or an error. Workload: every Unicode scalar value as c and 'a c'; every "
                 "character whose lowercase/NFC/NFKC form differs, with marks and in pairs; every canonical composition pair "
                 "of 16.0.0; the generated inputs of C04-C06. Known finding F5 (85 Cherokee letters) is matched per output "
-                "code point. Non-trivial = distinct accepted (profile, input) whose output differs from the input.",
+                "code point. every result is re-enforced once more after unrelated calls, and every changed result is handed to the other three profiles straight after it was produced and what they return is re-enforced after unrelated calls; Non-trivial = distinct accepted (profile, input) whose output differs from the input.",
         "floor_quick": 50000,
         "technique": "runtime monitoring: invariant checked on every observed enforce result",
         "assumptions": COMMON,
@@ -179,7 +179,7 @@ INFO = {
                 "cycles (period 2-7) and tails beyond that bound; the function spaces for n<=4/5 again with long state strings "
                 "(equal length with a 70-byte common prefix, strict prefixes, nested interior slices) and for n<=3 with 17 "
                 "well-known colliding string pairs of common 32-bit hashes as state names; the closure logs every call. Oracle: simulation of the "
-                "contract (<=4 applications, first error wins, first f(x)=x wins). Non-trivial = distinct (function, start, "
+                "contract (<=4 applications, first error wins, first f(x)=x wins). state names whose code point counts differ by factors of exactly 17, 18, 19 and 324; Non-trivial = distinct (function, start, "
                 "representation) whose contract needs >=2 applications.",
         "floor_quick": 1000,
         "technique": "runtime monitoring: event log of closure calls checked against a simulation of the contract, exhaustive over small function spaces",
@@ -222,7 +222,7 @@ INFO = {
                 "random and input-major order. Phase E runs long homogeneous workloads (all ASCII, Latin-1, CJK, right-to-left, errors only ...) in single-threaded "
                 "processes, each followed by the whole case list (adaptive modes). Phase D hammers few inputs that differ in one code point (congruent modulo "
                 "64..65536, different derived property) from 8-32 threads. The racer program is also run "
-                "under ThreadSanitizer (both tiers) and under Miri with many schedule seeds (thorough). Non-trivial = "
+                "under ThreadSanitizer (both tiers) and under Miri with many schedule seeds (thorough). phase A2: the string one profile has just produced is enforced by another profile as the very next call, again after unrelated calls and on a helper thread - the three results must agree; Non-trivial = "
                 "distinct accepted-and-changed (profile, op, input) in phase A plus distinct child processes (histories / "
                 "schedules) in phases B/C and sanitizer runs.",
         "floor_quick": 1000,
@@ -246,7 +246,7 @@ INFO = {
         "rule": "exhaustive window: every Single(a)/Range(a..=b), a<=b, against every cp over {0..k} U {u32::MAX-k..} U "
                 "{around 0x10FFFF}; 12 relations per pair (partial_cmp,<,<=,>,>=,== in both directions) vs a trichotomy model; "
                 "the same over 110 special magnitudes (powers of two +-1 up to 2^31, 0xFFFF/0x10000, u32::MAX) and random "
-                "full-range triples; then random sorted disjoint tables anywhere in the u32 range searched with the library's binary_search_by idiom. Non-trivial = "
+                "full-range triples; then random sorted disjoint tables anywhere in the u32 range searched with the library's binary_search_by idiom. `!=` is observed as its own operator in both directions; Non-trivial = "
                 "distinct (entry, cp) pairs and (table, probe) pairs, bucketed by relative position.",
         "floor_quick": 5000,
         "technique": "runtime monitoring: exhaustive differential check of the comparison operators against a trichotomy model",
